@@ -1631,6 +1631,10 @@ async fn c19_case(seed: u64, i: u64, entries: usize, tcp: bool) -> CaseOut {
         }
     };
     let ksn = "state";
+    if tcp {
+        // let the group's purge task take its start-up tick before anything exists (it then sleeps for an hour)
+        tokio::time::sleep(Duration::from_millis(60)).await;
+    }
     let shadow = c19_build(&mut node, ksn, &mut rng, entries, origins, hour_scale, purge).await;
     let ks = node.group.get_or_create_keyspace(ksn).await;
     // the sender's state: the harness-side shadow set (never serialized), cross-checked with
